@@ -877,6 +877,7 @@ Definition opt_action_eqb (a b : option action) : bool :=
   match a, b with Some x, Some y => action_eqb x y | None, None => true | _, _ => false end.
 Definition opt_fmt_eqb (a b : option fmt) : bool :=
   match a, b with Some x, Some y => fmt_eqb x y | None, None => true | _, _ => false end.
+Definition is_nil {A} (l : list A) : bool := match l with [] => true | _ => false end.
 """
 
 
@@ -977,6 +978,82 @@ def tx_collect(fn, coq_name, item):
             f"    end) hash_lists [].\n")
 
 
+LIST_NAMES = ("existing_hash_formats", "hash_formats", "hash_formats_to_generate")
+
+
+def tx_list_cond(e, item):
+    """conditions of the list-building fragment: truthiness of a list, len(L) > 0 / == 0, membership, and / or / not"""
+    if isinstance(e, ast.BoolOp):
+        op = " && " if isinstance(e.op, ast.And) else " || "
+        return "(" + op.join(tx_list_cond(v, item) for v in e.values) + ")"
+    if isinstance(e, ast.UnaryOp) and isinstance(e.op, ast.Not):
+        return "(negb " + tx_list_cond(e.operand, item) + ")"
+    if isinstance(e, ast.Name) and e.id in LIST_NAMES:
+        return f"(negb (is_nil {e.id}))"
+    if isinstance(e, ast.Compare) and len(e.ops) == 1 and len(e.comparators) == 1:
+        l, op, r = e.left, e.ops[0], e.comparators[0]
+        if (isinstance(l, ast.Call) and ast.unparse(l.func) == "len" and len(l.args) == 1 and isinstance(l.args[0], ast.Name) and l.args[0].id in LIST_NAMES
+                and isinstance(r, ast.Constant) and r.value == 0):
+            if isinstance(op, ast.Gt):
+                return f"(Nat.ltb 0 (length {l.args[0].id}))"
+            if isinstance(op, ast.Eq):
+                return f"(Nat.eqb (length {l.args[0].id}) 0)"
+        if isinstance(op, (ast.In, ast.NotIn)) and isinstance(l, ast.Name) and l.id == "hash_format" and isinstance(r, ast.Name) and r.id in LIST_NAMES:
+            return f"(memf hash_format {r.id})" if isinstance(op, ast.In) else f"(negb (memf hash_format {r.id}))"
+    fail(item, f"condition outside the translated fragment: {ast.unparse(e)}")
+
+
+def tx_list_stmts(stmts, var, item):
+    """statements that build the list `var` -> Gallina expression for its value afterwards (free variable `var`: the value before)"""
+    e = var
+    for st in stmts:
+        e = f"(let {var} := {e} in {tx_list_stmt(st, var, item)})"
+    return e
+
+
+def tx_list_stmt(st, var, item):
+    if isinstance(st, ast.Assign) and len(st.targets) == 1 and ast.unparse(st.targets[0]) == var and ast.unparse(st.value) == "[]":
+        return "(@nil fmt)"
+    if isinstance(st, ast.Expr) and isinstance(st.value, ast.Call) and ast.unparse(st.value.func) == var + ".append" and len(st.value.args) == 1:
+        a = st.value.args[0]
+        if isinstance(a, ast.Name) and a.id == "hash_format":
+            return f"({var} ++ [hash_format])"
+        if isinstance(a, ast.Subscript) and isinstance(a.value, ast.Name) and a.value.id in LIST_NAMES and ast.unparse(a.slice) == "0":
+            # L[0]: raises IndexError on an empty list; no value is appended then (the equality below holds for all inputs either way)
+            return f"(match {a.value.id} with first :: _ => {var} ++ [first] | [] => {var} end)"
+    if isinstance(st, ast.If) and not st.orelse:
+        return f"(if {tx_list_cond(st.test, item)} then {tx_list_stmts(st.body, var, item)} else {var})"
+    if isinstance(st, ast.For) and not st.orelse and ast.unparse(st.target) == "hash_format" and isinstance(st.iter, ast.Name) and st.iter.id in LIST_NAMES and st.iter.id != var:
+        return f"(fold_left (fun {var} hash_format => {tx_list_stmts(st.body, var, item)}) {st.iter.id} {var})"
+    fail(item, f"statement outside the translated fragment: {ast.unparse(st)}")
+
+
+def tx_to_generate(repo):
+    """commands.seal_file_path: the statements that build hash_formats_to_generate"""
+    item = "seal_file_path: hash_formats_to_generate"
+    mod = parse(repo, "ascmhl/commands.py")
+    fn = find_func(mod.body, "seal_file_path", item)
+    names = [ast.unparse(st.targets[0]) if isinstance(st, ast.Assign) and len(st.targets) == 1 else None for st in fn.body]
+    if names.count("hash_formats_to_generate") != 1 or names.count("current_hash_lookup") != 1:
+        fail(item, "expected one `hash_formats_to_generate = ...` and one `current_hash_lookup = ...` at the top level of seal_file_path")
+    i, j = names.index("hash_formats_to_generate"), names.index("current_hash_lookup")
+    if not i < j:
+        fail(item, "hash_formats_to_generate is built after it is used")
+    if ast.unparse(fn.body[j].value) != "multiple_format_hash_file(file_path, hash_formats_to_generate)":
+        fail(item, f"the list is not what is hashed: {ast.unparse(fn.body[j])}")
+    # nothing else may touch the list afterwards
+    for st in fn.body[j + 1:]:
+        for n in ast.walk(st):
+            if isinstance(n, ast.Call) and ast.unparse(n.func).startswith("hash_formats_to_generate."):
+                fail(item, f"the list is modified after hashing: {ast.unparse(n)}")
+            if isinstance(n, (ast.Assign, ast.AugAssign)) and "hash_formats_to_generate" in [ast.unparse(t) for t in (n.targets if isinstance(n, ast.Assign) else [n.target])]:
+                fail(item, "the list is re-assigned after hashing")
+    body = tx_list_stmts(fn.body[i:j], "hash_formats_to_generate", item)
+    return ("(* commands.py:seal_file_path -- the statements that build hash_formats_to_generate *)\n"
+            "Definition src_to_generate (existing_hash_formats hash_formats : list fmt) : list fmt :=\n"
+            f"  let hash_formats_to_generate := @nil fmt in\n  {body}.\n")
+
+
 def generate_fns(repo):
     mod = parse(repo, "ascmhl/history.py")
     cls = find_class(mod, "MHLHistory", "MHLHistory")
@@ -987,6 +1064,7 @@ def generate_fns(repo):
                            "src_find_first", "find_first_hash_entry_for_path", ["hash_format"]))
     parts.append(tx_collect(find_func(cls.body, "find_existing_hash_formats_for_path", "find_existing_hash_formats_for_path"),
                             "src_existing_formats", "find_existing_hash_formats_for_path"))
+    parts.append(tx_to_generate(repo))
     return "\n".join(parts)
 
 
@@ -1049,7 +1127,7 @@ def main(argv):
             with open(path + ".tmp", "w", encoding="utf-8") as fh:
                 fh.write(content)
             os.replace(path + ".tmp", path)
-    print(json.dumps({"ok": True, "changed": changed, "items": len(summary) + (0 if fn_error else 3), "shape_warnings": WARNINGS,
+    print(json.dumps({"ok": True, "changed": changed, "items": len(summary) + (0 if fn_error else 4), "shape_warnings": WARNINGS,
                       **({"function_translation_failed": fn_error} if fn_error else {})}))
     return 0
 
